@@ -151,10 +151,44 @@ abcd           { return 4; }
 [a-z]+         { return 14; }
 %%
 ''',
+ # small states with a transition on the last equivalence class: exercise the first-fit placement of -CF tables
+ 'sparse': r'''
+%%
+"ab"  { return 1; }
+"abhh"  { return 2; }
+"bdgde"  { return 3; }
+"bggdz"  { return 4; }
+"bhac"  { return 5; }
+"bzf"  { return 6; }
+"chzd"  { return 7; }
+"ecbaf"  { return 8; }
+"ehchz"  { return 9; }
+"ez"  { return 10; }
+"ezgf"  { return 11; }
+"fbhde"  { return 12; }
+"gb"  { return 13; }
+"gc"  { return 14; }
+"gzec"  { return 15; }
+"gzfz"  { return 16; }
+"hzg"  { return 17; }
+"zagg"  { return 18; }
+"ze"  { return 19; }
+"zfh"  { return 20; }
+[a-h]+z?  { return 30; }
+[ \n]+  { }
+%%
+''',
+ 'sparse2': r'''
+%%
+"fbhde"  { return 1; }
+"gzfz"  { return 2; }
+[a-h]+z?  { return 3; }
+%%
+''',
 }
 
 TABLEOPTS = [('Cem', ['ecs', 'meta-ecs']), ('Ce', ['ecs', 'nometa-ecs']), ('Cm', ['noecs', 'meta-ecs']), ('C', ['noecs', 'nometa-ecs']),
-             ('Cf', ['full']), ('Cfe', ['full', 'ecs']), ('CF', ['fast']), ('CFe', ['fast', 'ecs']), ('Cema', ['ecs', 'meta-ecs', 'align'])]
+             ('Cf', ['full']), ('Cfe', ['full', 'ecs']), ('CF', ['fast']), ('CFe', ['fast', 'ecs']), ('CFae', ['fast', 'ecs', 'align']), ('Cema', ['ecs', 'meta-ecs', 'align'])]
 
 def language_variants(thorough=False):
     out = []
